@@ -109,14 +109,16 @@ def gen_case(src):
     elif kind == "gauss_all":
         # a bare Gaussian whose integer inputs sit between its real inputs: one reduction takes integer and real inputs
         # together and keeps at least one real input
-        leaf2 = gauss_leaf(g, avail, rank_mode=g.pick(["full", "over"]), nreal=g.pick([2, 3]), max_dim=4)
+        trio = g.perm(g.pick([["x", "z", "y"], ["x", "z", "y"], ["x", "z", "u"], ["x", "y"], ["z", "u"]]))
+        leaf2 = gauss_leaf(g, avail, rank_mode=g.pick(["full", "over"]), real_names=trio)
         for _ in range(6):
-            if leaf2[1] and len(leaf2[2]) >= 2:
+            if leaf2[1]:
                 break
-            leaf2 = gauss_leaf(g, avail, rank_mode=g.pick(["full", "over"]), nreal=g.pick([2, 3]), max_dim=4)
+            leaf2 = gauss_leaf(g, avail, rank_mode=g.pick(["full", "over"]), real_names=trio)
         rr = [n for n, sh in leaf2[2]]
         ii = [(n, s_) for n, s_ in leaf2[1]]
-        keep = g.pick(rr)
+        # the kept real input is often one with reduced inputs (real and integer) on both sides of it
+        keep = rr[len(rr) // 2] if len(rr) >= 3 and g.chance(0.6) else g.pick(rr)
         red_r = [n for n in rr if n != keep]
         red_r = g.subset(red_r, 1, len(red_r)) if red_r else []
         red_i = g.subset(ii, 1, len(ii)) if ii else []
@@ -139,6 +141,8 @@ def gen_case(src):
         both = ("bin", "add", m1, m2)
         vs_ = ((i_, g.sizes[i_]),) + (rv(g.subset(shared_r, 1, len(shared_r))) if g.chance(0.5) else ())
         node = ("red", "logaddexp", both, vs_)
+        typeof(node)
+        return {"kind": kind, "ast": node, "direct": g.chance(0.6)}
     elif kind == "integrate_signed":
         # integrands that are signed / transformed Gaussians and sums of them: -g2, (-g2) + g1, g1 - g2, exp(g2) + g1
         mk = lambda: gauss_leaf(g, avail, rank_mode=g.pick(["full", "over"]), real_names=g.perm(g.subset(reals, 1, len(reals))))  # noqa: E731
@@ -278,6 +282,15 @@ class C13(Prop):
             if mm:
                 with I.moment_matching:
                     r = build(node)
+            elif kind == "mixture_pair" and case.get("direct"):
+                # the two mixtures are handed to Contraction as two operands (not fused by + first)
+                from funsor import Bint, Reals, Variable, ops
+                from funsor.cnf import Contraction
+
+                m1, m2 = build(node[2][2]), build(node[2][3])
+                vs = frozenset(Variable(n_, Reals[tuple(s_[1])]) if isinstance(s_, (tuple, list)) else Variable(n_, Bint[s_]) for n_, s_ in node[3])
+                r = Contraction(ops.logaddexp, ops.add, vs, m1, m2)
+                stt.count("two-mixtures-as-two-operands")
             else:
                 r = build(node)
         except (MemoryError, RecursionError):
